@@ -465,3 +465,33 @@ func verif_EncodeMessage(m msg.Message, key []byte) {
 		verif.Ensures(verif.RetErr(evWrite, 0) == nil && verif.CalledWith(evBytes, 0, b) && verif.Same(verif.NthArg[[]byte](evEnc, 0, 0), verif.Ret[[]byte](evBytes, 0)) && verif.CalledWith(evEnc, 1, key) && verif.Same(out, verif.Ret[[]byte](evEnc, 0)), "its_content_encrypted_with_the_session_key_is_the_datagram")
 	}
 }
+
+// MakeHole, which addresses get a probe (C20 "complementary instructions ... two
+// honest peers find each other"): the sender probes every address it was told
+// about - the peer's local (assisted) addresses and, after them, the peer's
+// public candidate addresses, the latter whether or not there are any of the
+// former (a peer in another network is reachable only through them); a
+// receiver probes the candidate addresses unless it was given candidate ports
+// to sweep instead.
+//
+//verif:contract ~/pkg/nathole.MakeHole
+//verif:props C20
+//verif:kinds post
+func verif_MakeHole(ctx context.Context, listenConn *net.UDPConn, m *msg.NatHoleResp, key []byte) {
+	verif.Requires(m != nil && listenConn != nil, "answer_of_the_server_and_a_socket")
+	sender := m.DetectBehavior.Role == DetectRoleSender
+	aa, ca := m.AssistedAddrs, m.CandidateAddrs
+	noPorts := len(m.DetectBehavior.CandidatePorts) == 0
+	verif.ResetEvents()
+	_, _, _ = MakeHole(ctx, listenConn, m, key)
+	const evProbeList = "slices.Compact"
+	probed := verif.NthArg[[]string](evProbeList, 0, 0)
+	verif.Ensures(verif.CallCount(evProbeList) == 1, "one_probe_list")
+	if sender {
+		verif.Ensures(len(probed) == len(aa)+len(ca), "sender_probes_assisted_and_candidate_addresses")
+	} else if noPorts {
+		verif.Ensures(verif.Same(probed, ca), "receiver_probes_the_candidate_addresses")
+	} else {
+		verif.Ensures(len(probed) == 0, "receiver_with_candidate_ports_sweeps_instead")
+	}
+}
